@@ -252,6 +252,14 @@ func (p *Proxy) handleLoop(conn net.Conn) {
 		log.Errorf("martian: failed to create session: %v", err)
 		return
 	}
+	// The session's connection may have been replaced by its TLS upgrade, which on
+	// a traffic shaped listener is wrapped in a shaped connection with resources
+	// of its own: close that one too.
+	defer func() {
+		if c := s.currentConn(); c != conn {
+			c.Close()
+		}
+	}()
 
 	ctx, err := withSession(s)
 	if err != nil {
